@@ -32,8 +32,8 @@ BUDGET = {'quick': 3200, 'thorough': 128000}
 
 PROFILE = {
     'weights': {'restart': 8, 'reboot': 2, 'down': 3, 'up': 2, 'idg': 2,
-                'cycle': 8, 'app': 12, 'state': 5, 'downseq': 2, 'allocs': 2},
-    'force': ['restart', 'state'],
+                'cycle': 8, 'app': 12, 'state': 5, 'downseq': 2, 'allocs': 2, 'partsched': 3, 'adv': 3, 'leasesched': 4},
+    'force': ['restart', 'state', 'partsched', 'leasesched'],
     'pre': (4, 12),
     'min_servers': 2,
     'max_parts': 2,
